@@ -167,8 +167,14 @@ func (t *tracedDBI) Reload(path string) (db.DBI, error) {
 			t.w.violate("backend #%d: slow reload (%s) finished on a backend that was closed meanwhile", t.id, kind)
 		}
 	}
+	if kind == "TN" {
+		// a new backend whose opening takes the number of microseconds given after '@' (used to finish right at the reload timeout)
+		us := 0
+		fmt.Sscanf(path[strings.IndexByte(path, '@')+1:], "%d", &us)
+		time.Sleep(time.Duration(us) * time.Microsecond)
+	}
 	switch kind {
-	case "NO", "BN":
+	case "NO", "BN", "TN":
 		n := t.w.newInst(true)
 		t.w.mu.Lock()
 		if t.w.byPath == nil {
@@ -479,6 +485,51 @@ func c06Run(seq []string, viaHandler bool) (viol []string, applicable bool, even
 	return viol, true, atomic.LoadInt64(&w.events)
 }
 
+// c06DeadlineSweep: n reloads that each open a new backend and finish within +-300 us of the reload timeout, so that
+// "the result is ready" and "the caller gave up" happen together in every order the scheduler produces; then shutdown.
+// Every backend ever opened must end up closed exactly once (the served one by the shutdown).
+func c06DeadlineSweep(n int, seed int64) (viol []string, timeouts, switches int, events int64) {
+	w := &c06World{}
+	cur := db.NewVerifDB(w.newInst(true))
+	const timeout = 2 * time.Millisecond
+	rng := rand.New(rand.NewSource(seed))
+	for i := 0; i < n; i++ {
+		us := 1700 + rng.Intn(600)
+		nd, err := cur.Reload(fmt.Sprintf("TN#%d@%d", i, us), nil, timeout)
+		if err == nil {
+			cur = nd
+			switches++
+		} else {
+			timeouts++
+		}
+	}
+	cur.Destroy()
+	deadline := time.Now().Add(8 * time.Second)
+	for {
+		allClosed := true
+		w.mu.Lock()
+		for _, t := range w.insts {
+			if atomic.LoadInt32(&t.closes) == 0 {
+				allClosed = false
+			}
+		}
+		w.mu.Unlock()
+		if allClosed || time.Now().After(deadline) {
+			break
+		}
+		time.Sleep(200 * time.Microsecond)
+	}
+	w.mu.Lock()
+	for _, t := range w.insts {
+		if c := atomic.LoadInt32(&t.closes); c != 1 && len(w.viol) < 10 {
+			w.viol = append(w.viol, fmt.Sprintf("backend #%d (opened by a reload that finished within 300 us of the reload timeout) closed %d times by the end of the history", t.id, c))
+		}
+	}
+	viol = append(viol, w.viol...)
+	w.mu.Unlock()
+	return viol, timeouts, switches, atomic.LoadInt64(&w.events)
+}
+
 // c06Key names the open-finding predicate a failing sequence satisfies.
 func c06Key(seq []string) string {
 	// a blocked same-backend reload (BS) still pending when shutdown comes
@@ -509,7 +560,7 @@ type c06Case struct {
 }
 
 func runC06(r *report.Run) {
-	r.SetRule("an instrumented backend (open/use/close events per instance, scripted reload outcomes: new-ok NO, same-ok SO, open-error OE, new-without-validation-key NV, same-without-validation-key SV, and blocked-until-released variants BN/BS/BF that exceed the 1 ms reload timeout and finish late) is driven through db.DB directly and through FBDNSDB by ALL operation sequences over {acquire (<=3 readers), use/release oldest|newest reader, the 8 reload outcomes, a new-ok reload during which another goroutine acquires and uses a reader between the return of db.Reload and the switch (verif hook r:reloaded), unblock, shutdown} up to a depth bound (reader-symmetric duplicates and sequences continuing after shutdown are skipped), then by seeded random longer ones; every history is completed (late reloads released, shutdown, readers released, goroutines settled). Invariants: no call on a closed instance, no close while a call runs, close count <= 1, served and pinned instances stay open, every instance ever opened is closed exactly once at the end. non-trivial = applicable sequence containing a reload and a reader; distinct by sequence")
+	r.SetRule("an instrumented backend (open/use/close events per instance, scripted reload outcomes: new-ok NO, same-ok SO, open-error OE, new-without-validation-key NV, same-without-validation-key SV, and blocked-until-released variants BN/BS/BF that exceed the 1 ms reload timeout and finish late) is driven through db.DB directly and through FBDNSDB by ALL operation sequences over {acquire (<=3 readers), use/release oldest|newest reader, the 8 reload outcomes, a new-ok reload during which another goroutine acquires and uses a reader between the return of db.Reload and the switch (verif hook r:reloaded), unblock, shutdown} up to a depth bound (reader-symmetric duplicates and sequences continuing after shutdown are skipped), then by seeded random longer ones; plus sweeps of reloads that open a new backend and finish within 300 us of a 2 ms reload timeout (both outcomes occur, counted); every history is completed (late reloads released, shutdown, readers released, goroutines settled). Invariants: no call on a closed instance, no close while a call runs, close count <= 1, served and pinned instances stay open, every instance ever opened is closed exactly once at the end. non-trivial = applicable sequence containing a reload and a reader; distinct by sequence")
 	r.Assume("the instrumented backend marks a slow reload as a call in progress on the old backend for its whole duration (as a RocksDB catch-up is)")
 	depth := r.Pick(4, 5)
 	var cur []string
@@ -608,6 +659,34 @@ func runC06(r *report.Run) {
 	close(work)
 	pool.Wait()
 	r.Sample(map[string]interface{}{"example_sequences": [][]string{{"A", "NO", "Uo", "Ro", "S"}, {"BS", "S"}, {"A", "SV", "Uo"}}})
+	// reloads finishing right at the reload timeout, 8 sweeps in parallel (more preemption, more orders)
+	{
+		var swg sync.WaitGroup
+		var smu sync.Mutex
+		for k := 0; k < 8; k++ {
+			swg.Add(1)
+			go func(k int) {
+				defer swg.Done()
+				n := r.Pick(400, 4000)
+				seed := r.Seed*1000 + int64(k)
+				viol, tmo, sw, ev := c06DeadlineSweep(n, seed)
+				smu.Lock()
+				defer smu.Unlock()
+				r.Eval(1)
+				r.Count("backend_events", ev)
+				r.Count("deadline_sweep_reloads", int64(n))
+				r.Count("deadline_sweep_reloads_timed_out", int64(tmo))
+				r.Count("deadline_sweep_reloads_switched", int64(sw))
+				if tmo > 0 && sw > 0 {
+					r.Nontrivial(fmt.Sprintf("deadline-sweep-%d", seed))
+				}
+				for _, v := range viol {
+					r.Violation("", "reloads finishing at the reload timeout: "+v, c06Case{Seq: []string{"deadline-sweep", fmt.Sprint(n), fmt.Sprint(seed)}})
+				}
+			}(k)
+		}
+		swg.Wait()
+	}
 	// real backends in a child process: any crash is the violation
 	res, err := runChild(false, "c06real", []string{fmt.Sprint(r.Seed), fmt.Sprint(r.Pick(60, 600))}, 20*time.Minute)
 	if err != nil {
@@ -705,7 +784,18 @@ func replayC06(r *report.Run, raw json.RawMessage) {
 		r.Inconclusive("unrecognised replay file")
 		return
 	}
-	viol, _, _ := c06Run(c.Seq, c.ViaHandler)
+	var viol []string
+	if c.Seq[0] == "deadline-sweep" && len(c.Seq) == 3 {
+		var n int
+		var seed int64
+		fmt.Sscan(c.Seq[1], &n)
+		fmt.Sscan(c.Seq[2], &seed)
+		for try := 0; try < 5 && len(viol) == 0; try++ { // schedule dependent: a few attempts
+			viol, _, _, _ = c06DeadlineSweep(n, seed)
+		}
+	} else {
+		viol, _, _ = c06Run(c.Seq, c.ViaHandler)
+	}
 	for _, v := range viol {
 		fmt.Println(v)
 	}
